@@ -299,7 +299,8 @@ VOPS = {"+": "ADD", "-": "SUB", ">": "CMP_GT", "<": "CMP_LT", "<=": "CMP_LE", ">
 
 @family("C04.arith", props=["C04", "C05"],
         functions=["nsl.passes.LowerToIR::LowerToIRVisitor.v_BinaryExpression", "nsl.LinearIR::BinaryInstruction.FromOperation", "nsl.VM::ExecutionContext.__Execute", "nsl.VM::ExecutionContext.__MatrixMatrixMultiply"],
-        assumptions=["operand types enumerated over the spellable float/int vectors and float matrices; component values symbolic (floats as reals)"])
+        assumptions=["operand types enumerated over the spellable float/int vectors and float matrices; component values symbolic (floats as reals)",
+                     "the `,ieee` obligations repeat element-wise +, -, and (vector | matrix) (* | /) scalar with float arithmetic UNINTERPRETED (pyvc.sym.FloatUF): every result component is exactly the one operator applied to the corresponding operand components, so a reciprocal-multiply or a re-association does not verify; matrix products keep the real-number model (their summation order is not prescribed)"])
 def c04_arith(R):
     """Element-wise + and -, comparisons giving 0/1 per component, vector or matrix times / divided by scalar, matrix + and - matrix, and the
     matrix product evaluate component-wise as written, for all component values."""
@@ -321,6 +322,8 @@ def c04_arith(R):
                     return [("value", vm_c.veq(got, want))]
 
                 verify(R, "C04.arith", fn, run, label=f"{kind}{n} {sp} {kind}{n}")
+                if kind == "float" and sp in "+-":
+                    verify(R, "C04.arith", fn, vm_c.ieee(run), label=f"{kind}{n} {sp} {kind}{n},ieee")
         for sp, opn in (("*", "MUL"), ("/", "DIV")):
             src = f"export function f(float{n} a, float s) -> float{n} {{ return (a {sp} s); }}"
             r, exc = program(src)
@@ -336,13 +339,14 @@ def c04_arith(R):
                 R.check(f"C04.arith[float{n} {sp} float]", fn, False, detail=f"rejected {exc!r}")
             else:
                 verify(R, "C04.arith", fn, run, label=f"float{n} {sp} float")
+                verify(R, "C04.arith", fn, vm_c.ieee(run), label=f"float{n} {sp} float,ieee")
         src = f"export function f(float s, float{n} a) -> float{n} {{ return (s * a); }}"
         r, exc = program(src)
 
         def run_sv(ctx, r=r, n=n):
             a, s = symvec(ctx, "a", n), ctx.real("s")
             got, _ = invoke(r, "f", a=a, s=s)
-            return [("value", vm_c.veq(got, [s.t * x.t for x in a]))]
+            return [("value", vm_c.veq(got, [irsem.binary("MUL", s.t, x.t, False) for x in a]))]
 
         rp = script("""
             import io, contextlib
@@ -363,6 +367,7 @@ def c04_arith(R):
             R.check(f"C04.arith[float * float{n}]", fn, False, detail=f"rejected {exc!r}", replay=rp)
         else:
             verify(R, "C04.arith", fn, run_sv, lambda m, c, rp=rp: rp, label=f"float * float{n}")
+            verify(R, "C04.arith", fn, vm_c.ieee(run_sv), lambda m, c, rp=rp: rp, label=f"float * float{n},ieee")
     for n in (3, 4):
         mt = f"float{n}x{n}"
         for sp in ("+", "-"):
@@ -372,13 +377,14 @@ def c04_arith(R):
             def run(ctx, r=r, n=n, sp=sp):
                 a, b = symmat(ctx, "a", n), symmat(ctx, "b", n)
                 got, _ = invoke(r, "f", a=a, b=b)
-                want = [[(x.t + y.t) if sp == "+" else (x.t - y.t) for x, y in zip(ra, rb)] for ra, rb in zip(a, b)]
+                want = [[irsem.binary("ADD" if sp == "+" else "SUB", x.t, y.t, False) for x, y in zip(ra, rb)] for ra, rb in zip(a, b)]
                 return [("value", vm_c.veq(got, want))]
 
             if r is None:
                 R.check(f"C04.arith[{mt} {sp} {mt}]", fn, False, detail=f"rejected {exc!r}")
             else:
                 verify(R, "C04.arith", fn, run, label=f"{mt} {sp} {mt}")
+                verify(R, "C04.arith", fn, vm_c.ieee(run), label=f"{mt} {sp} {mt},ieee")
         for sp in ("*", "/"):
             src = f"export function f({mt} a, float s) -> {mt} {{ return (a {sp} s); }}"
             r, exc = program(src)
@@ -388,13 +394,29 @@ def c04_arith(R):
                 if sp == "/":
                     ctx.assume(s != 0)
                 got, _ = invoke(r, "f", a=a, s=s)
-                want = [[(x.t * s.t) if sp == "*" else (x.t / s.t) for x in ra] for ra in a]
+                want = [[irsem.binary("MUL" if sp == "*" else "DIV", x.t, s.t, False) for x in ra] for ra in a]
                 return [("value", vm_c.veq(got, want))]
 
             if r is None:
                 R.check(f"C04.arith[{mt} {sp} float]", fn, False, detail=f"rejected {exc!r}")
             else:
                 verify(R, "C04.arith", fn, run, label=f"{mt} {sp} float")
+                verify(R, "C04.arith", fn, vm_c.ieee(run), lambda m, c, src=src, n=n, sp=sp: script("""
+                    import io, contextlib
+                    from nsl import Compiler, LinearIR, VM
+                    src, n = {{src}}, {{n}}
+                    with contextlib.redirect_stdout(io.StringIO()):
+                        r = Compiler.Compiler().Compile(src)
+                    l = LinearIR.Linker(); l.AddModule(r.IRModule)
+                    bad = None
+                    for s in (3.0, 7.0, 10.0, 0.1, 49.0):
+                        a = [[float(5 + i * n + j) for j in range(n)] for i in range(n)]
+                        got = VM.VirtualMachine(l.Link()).Invoke('f', a=a, s=s)
+                        want = [[(x * s) if {{sp}} == '*' else (x / s) for x in row] for row in a]
+                        if got != want and bad is None: bad = (s, got[0], want[0])
+                    print(src, 'first deviating scalar / row / IEEE result of the one operator:', bad)
+                    if bad: print('REPLAY-CONFIRMED')
+                    """, src=src, n=n, sp=sp), label=f"{mt} {sp} float,ieee")
         src = f"export function f({mt} a, {mt} b) -> {mt} {{ return (a * b); }}"
         r, exc = program(src)
 
@@ -488,6 +510,84 @@ def c04_construct(R):
                 return [("value", z3.BoolVal(same_obj(got, flat))), ("fresh", z3.BoolVal(all(got is not v for v in vals.values())))]
 
             verify(R, "C04.construct", fn, run, label=label)
+    # argument lists that do NOT provide exactly the components of the constructed type: rejected, or (if the language gives them a meaning)
+    # at least a value with the right number of components -- never a `floatN` with another number of components, never a run-time failure
+    fnt = "nsl.passes.ComputeTypes::ComputeTypeVisitor._ProcessExpression"
+    for n in (1, 2, 3, 4):
+        for ln in (1, 2, 3, 4):
+            for parts in itertools.product((1, 2, 3, 4), repeat=ln):
+                tot = sum(parts)
+                if tot == n or tot > 6 or (n > 1 and list(parts) == [n]):
+                    continue
+                params = ", ".join(f"{vt(k)} a{i}" for i, k in enumerate(parts))
+                args = ", ".join(f"a{i}" for i in range(len(parts)))
+                src = f"export function f({params}) -> {vt(n)} {{ return {vt(n)}({args}); }}"
+                label = f"{vt(n)}({','.join(vt(k) for k in parts)})"
+                r, exc = program(src)
+                if r is None:
+                    R.ok(f"C04.construct.arity[{label}]", fnt, detail="rejected")
+                    continue
+                vals = {f"a{i}": (1.5 + i if k == 1 else [float(10 * i + j) for j in range(k)]) for i, k in enumerate(parts)}
+                try:
+                    got, _ = invoke(r, "f", **vals)
+                    ok = (isinstance(got, list) and len(got) == n) if n > 1 else not isinstance(got, list)
+                    det = f"accepted; the VM returns {got!r} for a `{vt(n)}`"
+                except Exception as e:
+                    ok, det = False, f"accepted; the VM raises {type(e).__name__}: {e}"
+                R.check(f"C04.construct.arity[{label}]", fnt, ok, detail=f"{src}\n{det}", replay=script("""
+                    import io, contextlib
+                    from nsl import Compiler, LinearIR, VM
+                    src, vals, n = {{src}}, {{vals}}, {{n}}
+                    try:
+                        with contextlib.redirect_stdout(io.StringIO()):
+                            r = Compiler.Compiler().Compile(src)
+                    except BaseException as e:
+                        r = None; print('rejected', type(e).__name__, e)
+                    if r is not None:
+                        l = LinearIR.Linker(); l.AddModule(r.IRModule)
+                        try:
+                            got = VM.VirtualMachine(l.Link()).Invoke('f', **vals)
+                        except BaseException as e:
+                            got = e; print('VM raised', type(e).__name__, e)
+                        print(src, '->', got)
+                        if isinstance(got, BaseException) or (len(got) != n if isinstance(got, list) else n != 1): print('REPLAY-CONFIRMED')
+                    """, src=src, vals=vals, n=n))
+    # scalar constructors are the explicit conversion syntax: T(x) with one scalar argument yields x converted to T
+    for tk, tn in (("f", "float"), ("i", "int"), ("u", "uint")):
+        for ak, an in (("f", "float"), ("i", "int"), ("u", "uint")):
+            src = f"export function f({an} a) -> {tn} {{ return {tn}(a); }}"
+            label = f"{tn}({an})"
+            r, exc = program(src)
+            if r is None:
+                R.check(f"C04.construct.scalar[{label}]", fn, False, detail=f"rejected {exc!r}: {src}")
+                continue
+
+            def runs(ctx, r=r, tk=tk, ak=ak):
+                a = ctx.real("a") if ak == "f" else ctx.int("a")
+                if ak != "f":
+                    ctx.assume(irsem.in_i32(a.t))
+                if ak == "u" or tk == "u":
+                    ctx.assume(a >= 0)
+                got, _ = invoke(r, "f", a=a)
+                goals = [("scalar", z3.BoolVal(not isinstance(got, (list, dict)) and got is not None))]
+                if ak != "f" and got is not None and not isinstance(got, (list, dict)):
+                    goals.append(("value", vm_c.teq(got, a), "an integer converts to the same number"))
+                return goals
+
+            verify(R, "C04.construct.scalar", fn, runs, lambda m, c, src=src, ak=ak: script("""
+                import io, contextlib
+                from nsl import Compiler, LinearIR, VM
+                src = {{src}}
+                with contextlib.redirect_stdout(io.StringIO()):
+                    r = Compiler.Compiler().Compile(src)
+                l = LinearIR.Linker(); l.AddModule(r.IRModule)
+                a = {{a}}
+                try:
+                    got = VM.VirtualMachine(l.Link()).Invoke('f', a=a); print(src, 'f(%r) =' % a, got)
+                    if got != a and {{exact}}: print('REPLAY-CONFIRMED')
+                except BaseException as e:
+                    print(src, 'VM raised', type(e).__name__, e); print('REPLAY-CONFIRMED')
+                """, src=src, a=(float(m.get("a", 2.5)) if ak == "f" else int(m.get("a", 3))), exact=ak != "f"), label=label)
     # arguments of another component type are converted (accepted programs must not go wrong: C05)
     for label, src, build, want in (
             ("float4(int2,int,float)", "export function f(int2 a, int b, float c) -> float4 { return float4(a, b, c); }",
